@@ -135,6 +135,23 @@ CHECKS = {
           "the oracle judges separable masks only. Func masks, DictTransformer and ScoreTransformer are not modelled. Observation: a filter "
           "transformer that drops every chord raises AttributeError in apply_on_score (None.add_tags).",
  },
+ "C05": {
+  "text": "Theorems: the text of every note built from a library symbol (17 families, value in the library range, ANY octave, any duration with "
+          "denominator <= 1000 whether named or written .augment(frac(n, d)), per-note mode, accidental, amplitude, tag set) evaluates - by the "
+          "attribute protocol: __getattr__ durations, o/oabs, augment with limit_denominator, mode/accidental/dynamics properties, set_amp, "
+          "add_tags - to a note with the same kind, direction, value, octave, duration, mode, accidental, dynamics figure and tags; melodies note "
+          "by note; tonalities for all 12 tonics (sharp/flat names via Element.b/.s), every mode and EVERY octave; chords (degree, any valid "
+          "normal-form extension, tonality, octave, parts in order) and scores chord by chord; the printer's and the evaluator's tables "
+          "(duration names, dynamics) agree. The model renders the text to the exact printed string (compared character for character with "
+          "str(x)) and its evaluation is compared with Python's eval field by field. Oracle: Score.from_str, eval, to_text_file/from_file, "
+          "pickle, deepcopy, custom chords and the DataFrame form give equal objects with the same sounding notes. Four printer defects "
+          "repaired (drum dynamics, pattern-note octave, amplitude 0 printed as the empty duration '.n', figure '5' dropped).",
+  "note": "Trusted: Coq kernel; gen_tables; Python's eval (lexing/parsing of the printed text is not modelled: the tie is string equality "
+          "printer<->model plus object equality eval<->model); pickle, deepcopy, file I/O, pandas. Custom chords, files, pickling and the "
+          "DataFrame form are decided by the oracle on the implementation only. Sound equality is up to the dynamics figure (the text "
+          "quantises amplitudes to figures; rests carry none). Outside: Tonality degrees not in 0..11 (KeyError in to_code; not constructible "
+          "from library symbols), melody/chord/score-level tags and tempo/pedal fields (not in the statement).",
+ },
  "C07": {
   "text": "Theorems on the message lists handed to mido: per track, merging continuations and dropping silences yields exactly C03's sounding "
           "notes, independently of the other tracks; each sounding row gives exactly one note-on (key 60+pitch, velocity, at the onset) and "
